@@ -411,6 +411,12 @@ type loopOracle struct {
 	fans  map[string]*loopFan
 }
 
+type pendingViolation struct {
+	seq int
+	t   time.Duration
+	msg string
+}
+
 type loopFan struct {
 	unreadable   bool   // the PWM file of this fan can never be read (by the scenario's fault plan)
 	prevClean    *Cycle // previous cycle if it was observable
@@ -439,6 +445,7 @@ type loopFan struct {
 	restored            bool
 	atMaxZero           int // RPM polls at 0 while the request sits at the maximum
 	maxReported         bool
+	pendingBlind        *pendingViolation
 	pollAttempts        int           // RPM polls of any outcome
 	firstCycT, lastCycT time.Duration // first and last regulation cycle
 }
@@ -524,6 +531,10 @@ func (o *loopOracle) onCycle(c *Cycle) {
 		return
 	}
 	lf.cycles++
+	if pv := lf.pendingBlind; pv != nil {
+		lf.pendingBlind = nil
+		o.res.Violate("C12", "skip", "skip blind map="+mapKind(lf.spec), pv.seq, pv.t, "%s", pv.msg)
+	}
 	if lf.cycles == 1 {
 		lf.firstCycT = c.EndT
 	}
@@ -535,22 +546,31 @@ func (o *loopOracle) onCycle(c *Cycle) {
 	// the request is observable when the fan reads back what was written through an identity map
 	observable := lf.identity && lf.spec.Driver.Quant == "" && !lf.spec.Driver.IgnoreWrites
 	faulty := false
+	// blind: every read of the PWM value in this cycle ended in an error (nothing else is wrong with the cycle):
+	// fan2go cannot know what the fan shows
+	blind := len(c.PwmReads) > 0 && !lf.unreadable
 	for _, w := range c.Writes {
 		if w.Err != "" || w.Fault != "" {
-			faulty = true
+			faulty, blind = true, false
 		}
 	}
 	for _, rd := range c.PwmReads {
 		if (rd.Err != "" || rd.Fault != "") && !lf.unreadable {
 			faulty = true
 		}
+		if rd.Err == "" {
+			blind = false
+		}
 	}
 	if lf.envSeq > lf.lastWriteSeq || lf.polluted {
 		// a third party wrote the file after fan2go's last regulating write: it no longer shows the request
-		faulty = true
+		faulty, blind = true, false
 	}
 	req := c.After.Pwm
-	if o.props["C12"] && directNoLimit(lf.spec) && !faulty && c.After.Raises == 0 && lf.obsRaises == 0 {
+	if blind {
+		res.Probe("blind-cycles(every PWM read failed)")
+	}
+	if o.props["C12"] && directNoLimit(lf.spec) && (!faulty || blind) && c.After.Raises == 0 && lf.obsRaises == 0 {
 		// the direct algorithm: on a full-range fan the request equals the curve value; on a fan with limits it
 		// is the curve value rescaled into [min,max] (taken within one step, the rescale's rounding is C04's)
 		x := c.After.CurveVal
@@ -584,7 +604,14 @@ func (o *loopOracle) onCycle(c *Cycle) {
 		} else if c.Before != nil {
 			// no write is only right when the fan already showed an acceptable value
 			if !want[world.Quantise(&lf.spec.Driver, c.Before.Pwm)] && !want[c.After.Pwm] {
-				res.Violate("C12", "skip", "skip map="+mapKind(lf.spec), c.EndPSeq, c.EndT, "fan %s: request %d, no write although the fan showed %d and acceptable values are %v", c.Fan, x, c.After.Pwm, keysOf(want))
+				msg := fmt.Sprintf("fan %s: request %d, no write although the fan showed %d and acceptable values are %v", c.Fan, x, c.After.Pwm, keysOf(want))
+				if blind {
+					// (a failed read may also be a control error that ends regulation: judged when the next cycle
+					// of this fan shows that regulation went on)
+					lf.pendingBlind = &pendingViolation{seq: c.EndPSeq, t: c.EndT, msg: msg + " (every PWM read of the cycle had failed, and regulation went on)"}
+				} else {
+					res.Violate("C12", "skip", "skip map="+mapKind(lf.spec), c.EndPSeq, c.EndT, "%s", msg)
+				}
 			}
 			res.Probe("c12-skips-judged")
 		}
@@ -878,7 +905,7 @@ func init() {
 		return sc
 	}})
 	register(&Family{Name: "c12", Run: runLoop("C12"), Gen: func(seed uint64, tier string) *world.Scenario {
-		sc := genLoop("c12", seed, tier, loopOpts{kinds: []string{"hwmon", "hwmon", "file"}, directOnly: true, fullRange: true, horizonLo: 20, horizonHi: 50})
+		sc := genLoop("c12", seed, tier, loopOpts{kinds: []string{"hwmon", "hwmon", "file"}, directOnly: true, fullRange: true, horizonLo: 20, horizonHi: 50, faultP: 0.3})
 		r := kernel.NewRand(seed, "c12.extra")
 		if r.Bool(0.5) {
 			// a ramp sweeps the request through 0..255, one or two units per cycle
@@ -894,13 +921,39 @@ func init() {
 				sc.Sensors[i].Prog = p
 			}
 			sc.Variant = "ramp"
+		} else if r.Bool(0.5) {
+			// the temperature hops between two or three values every cycle or two (a load that comes and goes),
+			// and the PWM attribute cannot be read for a few cycles now and then (EBUSY / EAGAIN / EIO)
+			sc.TempWin = 1
+			sc.TempPoll = sc.Tick
+			for i := range sc.Sensors {
+				vals := []int{tempForCurve(r.Range(0, 255)), tempForCurve(r.Range(0, 255)), tempForCurve(r.Range(0, 255))}[:r.Range(2, 3)]
+				p := world.TempProg{Kind: "steps", Base: vals[0]}
+				k := 0
+				for t := 3 * time.Second; t < sc.Horizon.D(); t += time.Duration(r.Range(1, 2)) * sc.Tick.D() {
+					k++
+					p.Steps = append(p.Steps, world.TempStep{T: world.Dur(t), V: vals[k%len(vals)]})
+				}
+				sc.Sensors[i].Prog = p
+			}
+			sc.Faults = nil
+			for i := range sc.Fans {
+				if sc.Fans[i].Kind == "cmd" {
+					continue
+				}
+				for j, n := 0, r.Range(1, 4); j < n; j++ {
+					sc.Faults = append(sc.Faults, world.FaultSpec{Op: "read", Target: "fan:" + sc.Fans[i].ID + ":pwm", Nth: r.Range(2, 150), Count: r.Range(1, 8),
+						Kind: kernel.Pick(r, "ebusy", "eagain", "eio", "missing"), OnlyFlags: "upd"})
+				}
+			}
+			sc.Variant = "hopping+busy-reads"
 		}
 		return sc
 	}})
 	register(&Family{Name: "c12lim", Run: runLoop("C12"), Gen: func(seed uint64, tier string) *world.Scenario {
 		// fans with limits (configured or measured minimum / maximum): the nearest supported input of a
 		// request may lie outside [min,max]
-		sc := genLoop("c12lim", seed, tier, loopOpts{kinds: []string{"hwmon"}, directOnly: true, neverStopP: 0.7, horizonLo: 20, horizonHi: 50})
+		sc := genLoop("c12lim", seed, tier, loopOpts{kinds: []string{"hwmon"}, directOnly: true, neverStopP: 0.7, horizonLo: 20, horizonHi: 50, faultP: 0.3})
 		r := kernel.NewRand(seed, "c12lim.extra")
 		if r.Bool(0.6) {
 			sc.TempWin = 1
